@@ -183,6 +183,15 @@ def cases(tier, seed):
         for tmpl in (" BNE {}", " JMP {}", " LDX {}", " LDA #{}", " LDA [{}]", " LDA {},X", " LEAX {},PCR", " FCB 1,{}", "ZQ EQU {}", " FDB {}", " ORG {}", " END {}"):
             yield {"src": "symshape", "lines": ["{} NOP".format(name), tmpl.format(name), " RTS"]}
             yield {"src": "symshape.undef", "lines": [" NOP", tmpl.format(name), " RTS"]}
+    # (b3) symbols whose EQU operand is not one number (an expression, a pair, an alias, an operand of another shape), used alone and as
+    # a term of label+-symbol in every operand position
+    for d in ("1+1", "1,2", "L", "L+1", "Q2", "#5", "[5]", ",X", "5,X", "'A", "-3", "1+L", "A", "$"):
+        for e in ("SYM", "L+SYM", "L-SYM", "SYM+L", "SYM+1", "SYM-L"):
+            for tmpl in (" BNE {}", " LBRA {}", " JMP {}", " LDX {}", " LDA #{}", " LDA [{}]", " LDA {},X", " LEAX {},PCR", " FCB {}", "ZQ EQU {}", " FDB {}",
+                         " RMB {}", " END {}"):
+                yield {"src": "equshape", "lines": ["Q2 EQU 2", "L NOP", "SYM EQU {}".format(d), tmpl.format(e), " RTS"]}
+                if e == "L+SYM" and tmpl in (" BNE {}", " LDX {}", " LEAX {},PCR"):
+                    yield {"src": "equshape.later", "lines": ["Q2 EQU 2", "L NOP", tmpl.format(e), " RTS", "SYM EQU {}".format(d)]}
     # (c) lines over the line alphabet
     depth = 4 if thorough else 3
     for n in range(1, depth + 1):
